@@ -24,6 +24,9 @@ pub struct Case {
     pub indels: Vec<(u16, u16, Vec<bool>)>,
     pub orient: Vec<bool>,
     pub threads: u8,
+    /// one sample truncated before some indel (then neither form is present: genotype must be '.'): (sample selector, cut selector)
+    #[serde(default)]
+    pub trunc: Option<(u16, u16)>,
 }
 
 fn case_strategy() -> BoxedStrategy<Case> {
@@ -36,8 +39,9 @@ fn case_strategy() -> BoxedStrategy<Case> {
         proptest::collection::vec((any::<u16>(), any::<u16>(), proptest::collection::vec(any::<bool>(), 2..8)), 1..4),
         proptest::collection::vec(any::<bool>(), 1..6),
         prop::sample::select(vec![1u8, 1, 2, 4]),
+        prop_oneof![2 => Just(None), 1 => (any::<u16>(), any::<u16>()).prop_map(Some)],
     )
-        .prop_map(|(k, n_samples, material, lead, tail, indels, orient, threads)| Case { k, n_samples, material, lead, tail, indels, orient, threads })
+        .prop_map(|(k, n_samples, material, lead, tail, indels, orient, threads, trunc)| Case { k, n_samples, material, lead, tail, indels, orient, threads, trunc })
         .boxed()
 }
 
@@ -47,6 +51,8 @@ pub struct Mat {
     pub indels: Vec<(usize, usize, Vec<bool>)>,
     pub fwd: Vec<Vec<u8>>,
     pub samples: Vec<Sample>,
+    /// (sample, cut position in ancestor coordinates) of the truncated sample
+    pub trunc: Option<(usize, usize)>,
 }
 
 pub fn materialise(c: &Case) -> Result<Mat, String> {
@@ -73,15 +79,40 @@ pub fn materialise(c: &Case) -> Result<Mat, String> {
         }
         indels.push((*p, *ln, cs));
     }
+    // optional truncation: a cut that lies at least 2k away from every indel, after at least one indel-free 2k prefix
+    let trunc: Option<(usize, usize)> = c.trunc.and_then(|(ssel, csel)| {
+        let allowed: Vec<usize> = (2 * k..anc.len()).filter(|cut| indels.iter().all(|(p, ln, _)| *cut + 2 * k <= *p || *cut >= *p + *ln + 2 * k)).filter(|cut| indels.iter().any(|(p, _, _)| *cut + 2 * k <= *p)).collect();
+        if allowed.is_empty() || c.n_samples < 4 {
+            None
+        } else {
+            Some((gen::idx(ssel, c.n_samples), allowed[gen::idx(csel, allowed.len())]))
+        }
+    });
     let mut fwd = Vec::new();
     for j in 0..c.n_samples {
         let mut s = anc.clone();
+        if let Some((tj, cut)) = trunc {
+            if tj == j {
+                s.truncate(cut);
+            }
+        }
         for (p, ln, cs) in indels.iter().rev() {
-            if cs[j] {
+            if cs[j] && *p + *ln <= s.len() {
                 s.drain(*p..*p + *ln);
             }
         }
         fwd.push(s);
+    }
+    // the other samples must still show both alleles of every indel
+    if let Some((tj, cut)) = trunc {
+        for (p, _, cs) in &indels {
+            if *p >= cut {
+                let others: Vec<bool> = (0..c.n_samples).filter(|j| *j != tj).map(|j| cs[j]).collect();
+                if others.iter().all(|x| *x) || others.iter().all(|x| !*x) {
+                    return Err("truncation leaves a single allele".into());
+                }
+            }
+        }
     }
     // every derived sample must itself have unique (k-1)-mers on both strands
     let w = k - 1;
@@ -96,7 +127,7 @@ pub fn materialise(c: &Case) -> Result<Mat, String> {
         .enumerate()
         .map(|(j, s)| (format!("smp{j}"), vec![if c.orient[j % c.orient.len()] { model::revcomp(s) } else { s.clone() }]))
         .collect();
-    Ok(Mat { ancestor: anc, indels, fwd, samples })
+    Ok(Mat { ancestor: anc, indels, fwd, samples, trunc })
 }
 
 fn contains(hay: &[u8], needle: &[u8]) -> bool {
@@ -116,7 +147,12 @@ fn check(c: &Case, ctx: &Ctx) -> Outcome {
     let r: Result<(usize, usize), Outcome> = (|| {
         must_ok(&build(ctx, &dir, "x", &m.samples, k, true, 1), "ska build")?;
         let ts = c.threads.to_string();
-        let o = run_ska(ctx, &dir, &["lo", "x.skf", "out", "--threads", &ts]);
+        let mut args = vec!["lo", "x.skf", "out", "--threads", &ts];
+        if m.trunc.is_some() {
+            // one of >= 4 samples is missing at the indels behind the cut
+            args.extend_from_slice(&["-m", "0.4"]);
+        }
+        let o = run_ska(ctx, &dir, &args);
         must_ok(&o, "ska lo on isolated indels")?;
         let txt = std::fs::read_to_string(dir.join("out_indels.vcf")).map_err(|e| Outcome::Fail(format!("out_indels.vcf: {e}")))?;
         let mut matched: Vec<usize> = Vec::new();
@@ -170,7 +206,9 @@ fn check(c: &Case, ctx: &Ctx) -> Outcome {
             let cands: Vec<usize> = (0..m.indels.len())
                 .filter(|i| {
                     let (p, ln, cs) = &m.indels[*i];
-                    if *ln != dl || !(0..c.n_samples).all(|j| (gts[j] == long_gt) == !cs[j]) {
+                    // a truncated sample lacks the indels behind its cut: its genotype there must be '.'
+                    let missing = |j: usize| matches!(m.trunc, Some((tj, cut)) if tj == j && *p >= cut);
+                    if *ln != dl || !(0..c.n_samples).all(|j| if missing(j) { gts[j] == "." } else { (gts[j] == long_gt) == !cs[j] && gts[j] != "." }) {
                         return false;
                     }
                     let mut del = m.ancestor.clone();
@@ -202,6 +240,7 @@ fn check(c: &Case, ctx: &Ctx) -> Outcome {
             if found == planted { cl.push("all_found"); } else { cl.push("some_missed"); }
             if planted >= 2 { cl.push(">=2_indels"); }
             if c.threads > 1 { cl.push("threads>1"); }
+            if m.trunc.is_some() { cl.push("sample_missing_at_an_indel"); }
             pass(found > 0, key_of(&(k, &m.fwd, c.threads)), cl)
         }
     }
@@ -223,7 +262,7 @@ fn post(rt: &mut Runtime) {
     }
 }
 
-const RULE: &str = "generated: ancestor (all insertions present) with unique (k-1)-mers on both strands, 1-3 indels of length 1..min(10,k-1) at least 4k apart and 2k from the ends, carrier sets non-empty and proper over 3-8 samples, every derived sample re-checked for unique (k-1)-mers (rejections counted), samples randomly reverse-complemented, k in {11,15,21,31}, threads 1/2/4. Oracle per record: before+REF+after (or its reverse complement) occurs in exactly the samples genotyped 0, before+ALT+after in exactly those genotyped 1, '.' iff neither or both; the record matches one planted indel by length and carriers, none twice, none unmatched; aggregate recall >= 90% (checked when >= 200 planted). Non-trivial: >= 1 indel reported.";
+const RULE: &str = "generated: ancestor (all insertions present) with unique (k-1)-mers on both strands, 1-3 indels of length 1..min(10,k-1) at least 4k apart and 2k from the ends, carrier sets non-empty and proper over 3-8 samples, every derived sample re-checked for unique (k-1)-mers (rejections counted), samples randomly reverse-complemented, k in {11,15,21,31}, threads 1/2/4; in a third of the cases one of >= 4 samples is truncated >= 2k before an indel (neither form present: must be genotyped '.', run with -m 0.4). Oracle per record: before+REF+after (or its reverse complement) occurs in exactly the samples genotyped 0, before+ALT+after in exactly those genotyped 1, '.' iff neither or both; the record matches one planted indel by length and carriers, none twice, none unmatched; aggregate recall >= 90% (checked when >= 200 planted). Non-trivial: >= 1 indel reported.";
 
 fn stages(tier: Tier) -> Vec<Box<dyn Stage>> {
     vec![gen_stage_show("indels", RULE, tier.pick(1600, 20_000), 150, case_strategy, check, |c| match materialise(c) {
